@@ -169,6 +169,12 @@ func doDump(P *Program, what string) {
 		dumpHeadFields(P)
 	case what == "headparams":
 		dumpHeadParams(P)
+	case what == "headglobals":
+		dumpHeadGlobals(P)
+	case what == "headtypes":
+		dumpHeadTypes(P)
+	case what == "headfuncs":
+		dumpHeadFuncs(P)
 	case what == "rejtable":
 		// prints the reasons of all verification trees in the format of rejections_table.txt (for review, not used at run time)
 		var names []string
